@@ -459,7 +459,7 @@ fn check_pair(sub: &str, text: &str, doc: &str, st: &mut Stats) -> CaseResult {
     match search_text(&text, &doc) {
         ImpOut::SearchErr(e) => {
             if e.is_parse {
-                let sig = if crate::imp::reference_says_nonfinite(&text, &doc) || e.detail.contains("valid number") || e.detail.contains("valid f64") { "nonfinite-aggregate-as-parse-error" } else { "runtime-failure-as-parse-error" };
+                let sig = if crate::imp::reference_says_nonfinite(&text, &doc) || ((text.contains("sum(") || text.contains("avg(")) && (e.detail.contains("valid number") || e.detail.contains("valid f64"))) { "nonfinite-aggregate-as-parse-error" } else { "runtime-failure-as-parse-error" };
                 return Err(Failure::new(sub, sig, format!("search failed with {} (expression {:?})", e.detail, e.expression), json!({"expression": text, "document": doc})));
             }
             record_invariants(sub, &text, &e, &doc)?;
@@ -530,11 +530,38 @@ const FIXED: &[(&str, &str)] = &[
     ("avg(`[]`)", "{}"),
 ];
 
+/// Numbers at the edges of the integer and floating-point ranges.
+pub const EXTREME_NUMBERS: &[&str] = &[
+    "-9223372036854775808", "-9223372036854775807", "9223372036854775807", "9223372036854775808", "18446744073709551615", "18446744073709551616", "-9223372036854775809", "1e19", "-1e19", "1e300", "-1e300",
+    "1.7976931348623157e308", "5e-324", "-5e-324", "2.2250738585072014e-308", "-0.0", "0", "0.0", "9007199254740992", "9007199254740993", "-9007199254740993", "2147483648", "-2147483649", "4294967296", "0.5", "-0.5", "1e-7", "123456789012345678901234567890",
+];
+
 fn fixed_cases(_env: &Env, st: &mut Stats) -> Vec<Failure> {
     let mut out = vec![];
     for (e, d) in FIXED {
         if let Err(f) = check_pair("cases", e, d, st) {
             out.push(f);
+        }
+    }
+    // every built-in that takes a number (or anything) on numbers at the edges of the ranges,
+    // as a literal and as a document value, alone and inside arrays: whatever fails, fails as a
+    // well-formed runtime error
+    let unary = ["abs({})", "ceil({})", "floor({})", "to_number({})", "to_string({})", "type({})", "not_null({})", "to_array({})", "sum([{}])", "avg([{}])", "max([{}])", "min([{}])", "sort([{}])", "sum([{}, `1`])", "avg([{}, `-1`])", "max([{}, `0`])", "sort([`1`, {}])", "to_number(to_string({}))", "[{}][0]", "{} == {}", "{} < `1`", "join(', ', [to_string({})])", "length(to_string({}))", "reverse([{}])", "contains([{}], {})", "map(&abs(@), [{}])", "sort_by([{{k: {}}}], &k)", "max_by([{{k: {}}}, {{k: `0`}}], &k)", "merge({{a: {}}}, {{b: {}}})", "values({{a: {}}})"];
+    for n in EXTREME_NUMBERS {
+        for form in unary {
+            let lit = form.replace("{{", "\u{1}").replace("}}", "\u{2}").replace("{}", &format!("`{}`", n)).replace('\u{1}', "{").replace('\u{2}', "}");
+            let via_doc = form.replace("{{", "\u{1}").replace("}}", "\u{2}").replace("{}", "v").replace('\u{1}', "{").replace('\u{2}', "}");
+            let doc = format!("{{\"v\": {}}}", n);
+            for (e, d) in [(lit.as_str(), "{}"), (via_doc.as_str(), doc.as_str())] {
+                if let Err(f) = check_pair("cases", e, d, st) {
+                    if !_env.is_known(&f.sig) {
+                        out.push(f);
+                        if out.len() > 8 {
+                            return out;
+                        }
+                    }
+                }
+            }
         }
     }
     out
